@@ -55,6 +55,10 @@ void AbacusLegalizer::placeCell(int cell) {
    * Simple algorithm that tries close row first and stops early if no
    * improvement can be found
    */
+  if (nbRows() == 0) {
+    // No row left (e.g. all taken by macros): the cell stays unplaced
+    return;
+  }
   int targetX = cellTargetX_[cell];
   int targetY = cellTargetY_[cell];
   int bestRow = -1;
